@@ -355,3 +355,35 @@ def result_constructions(body, self_base, F=None):
         t = body.term(bl)
         if t["k"] == "call" and (t.get("f") or {}).get("unsafe") and re.search(r"unchecked", (callee(t) or "").split("::")[-1]):
             yield bl, (callee(t) or "").split("::")[-1], [("arg%d" % i, a) for i, a in enumerate(t["args"])]
+
+
+def locals_reading_field(body, field):
+    """locals assigned from a place / reference involving self.<field> (any depth of reborrow)"""
+    out = set()
+    for bl in range(body.n):
+        for s in body.stmts(bl):
+            if s[0] != "a":
+                continue
+            rv = s[2]
+            ps = []
+            if rv[0] in ("ref", "raw", "discr"):
+                ps.append(rv[2] if rv[0] != "discr" else rv[1])
+            else:
+                ps += [op[1] for op in rvalue_operands(rv) if op[0] in ("c", "m")]
+            for p in ps:
+                if any(isinstance(e, list) and e[0] == "f" and e[2] == field for e in p[1]):
+                    out.add(s[1][0])
+    return out
+
+
+def switches_depending_on_field(body, field):
+    src = locals_reading_field(body, field)
+    tainted = body.taint(src)
+    out = []
+    for sb in range(body.n):
+        t = body.term(sb)
+        if t["k"] == "switch" and any(l in tainted for l in operand_locals(t["d"])):
+            out.append(sb)
+    return out
+
+
